@@ -1,5 +1,5 @@
 (* C16 - Reported sizes and counts always equal what is actually stored. *)
-From IggyV Require Import Base.Tactics Base.ListX Model.Part Model.PartSpec Proofs.PartBasics Proofs.PartHistory Proofs.PartCounts.
+From IggyV Require Import Base.Tactics Base.ListX Model.Part Model.PartSpec Proofs.PartBasics Proofs.PartHistory Proofs.PartCounts Proofs.CacheHistory Proofs.OffsetsHistory Proofs.ReadExact Proofs.ReadPart Proofs.ReadHistory Proofs.ExpiryBasics Proofs.ExpiryHistory.
 Open Scope N_scope.
 
 Definition C16_full : Prop := forall c t0 ops, model_check c t0 ops = 0.
@@ -32,5 +32,21 @@ Proof.
   split; [apply (k_msgs _ HK)|]. split; [apply (k_psize _ HK)|]. split; [apply (k_cnt _ (k_seg _ HK)) | apply (K_counts _ (k_seg _ HK))].
 Qed.
 
+(* PROVED, history level WITH message expiry: the same statement for every operation list in which a message expiry may be
+   configured and changed at will and expiry-based retention runs at arbitrary times (Proofs/ExpiryHistory.v).  Side conditions:
+   segment size > 0, offsets below 2^32, log files below 2^32 bytes, and send timestamps that are non-zero and never go
+   backwards (the times at which maintenance passes run are arbitrary). *)
+Theorem C16_counters_history_expiry_partial : forall ops c t0, 0 < c_seg c -> times_ok 0 ops -> Forall bounds_ok (prun_states (c, part_new c t0) ops) ->
+  let p := snd (pfinal (c, part_new c t0) ops) in
+  p_msgs p = nlen (part_all p) /\
+  p_size p = sum_sizes (p_segs p) /\
+  (forall s, In s (p_segs p) -> s_size s = log_bytes (s_log s) + msgs_size (acc_msgs s)) /\
+  sum_counts (p_segs p) = nlen (part_all p).
+Proof.
+  intros ops c t0 Hseg Ht Hb. cbn zeta. destruct (history_E0 ops c t0 Hseg Ht Hb) as [HE _]. pose proof (r_K _ (e_R _ _ _ HE)) as HK.
+  split; [apply (k_msgs _ HK)|]. split; [apply (k_psize _ HK)|]. split; [apply (k_cnt _ (k_seg _ HK)) | apply (K_counts _ (k_seg _ HK))].
+Qed.
+
 Print Assumptions C16_append_counters_partial.
 Print Assumptions C16_counters_history_partial.
+Print Assumptions C16_counters_history_expiry_partial.
